@@ -26,13 +26,15 @@ def scratch(prefix="verif-"):
 
 
 def run_tlc(module, cfg=None, *, workers=4, args=(), env=None, timeout=900, cwd=SPEC, heap="2g",
-            simulate=None, depth_first=False):
+            simulate=None, depth_first=False, library=None):
     """Run TLC on spec/<module>.tla with spec/<cfg>; return (stdout, wall_s).  Never raises on
     invariant violation (caller inspects the text); raises MachineryError on crash/timeout."""
     meta = scratch("tlcmeta-")
     cmd = ["timeout", str(timeout), "java", "-XX:+UseParallelGC", "-Xmx" + heap]
     if depth_first:
         cmd.append("-Dtlc2.tool.queue.IStateQueue=StateDeque")
+    if library:
+        cmd.append("-DTLA-Library=" + library)
     cmd += ["-cp", JAR, "tlc2.TLC", "-workers", str(workers), "-metadir", meta, "-noGenerateSpecTE"]
     if cfg:
         cmd += ["-config", cfg]
